@@ -1,6 +1,7 @@
 package main
 
 import (
+	"sort"
 	"encoding/json"
 	"flag"
 	"fmt"
@@ -96,7 +97,24 @@ func cmdRun(args []string) {
 			pm[kv[:i]] = n
 		}
 	}
+	if os.Getenv("GOSYM_REGSTAT") != "" {
+		interp.RegStat = map[string]int64{}
+	}
 	sum := interp.Explore(P, fn, interp.Options{Workers: *workers, MaxPaths: *maxPaths, MaxSteps: *maxSteps, Trace: *trace, SolverKind: *solver, CountFiles: *countFiles, Params: pm, ForkSites: *forkSites})
+	if interp.RegStat != nil {
+		type kv struct {
+			k string
+			v int64
+		}
+		var l []kv
+		for k, v := range interp.RegStat {
+			l = append(l, kv{k, v})
+		}
+		sort.Slice(l, func(i, j int) bool { return l[i].v > l[j].v })
+		for i := 0; i < len(l) && i < 15; i++ {
+			fmt.Fprintln(os.Stderr, "regstat", l[i].v, l[i].k)
+		}
+	}
 	sum.Funcs = nil
 	if len(sum.Samples) > 3 {
 		sum.Samples = sum.Samples[:3]
